@@ -1,1 +1,42 @@
-import RosedVerif.Spec.Layout
+/-
+C12 — Justify fills lines to the exact width with even gaps.
+The space-distribution loop of JustifyLine (model: `distribute`, a transliteration of the Go loop
+including its index arithmetic) never indexes out of range, adds exactly the missing spaces, and
+leaves gap sizes that differ by at most one — for every number of gaps and every deficit.
+-/
+import RosedVerif.Model.JustifyLemmas
+import RosedVerif.Model.InstAFacts
+namespace RosedVerif.Props
+open RosedVerif
+
+/-- the loop is total (the odd-gap correction keeps the index in range) and adds exactly `n` spaces -/
+theorem C12_distribute_total (g : Nat) (hg : 0 < g) (n : Nat) :
+    ∃ r, distribute (g : Int) (if g % 2 == 0 then 0 else 1) n 0 false (List.replicate g 0) = .ok r ∧
+      r.length = g ∧ r.sum = n := distribute_total g hg n
+
+/-- runs of spaces differ by at most one -/
+theorem C12_even_gaps (g : Nat) (hg : 0 < g) (n : Nat) (r : List Nat)
+    (h : distribute (g : Int) (if g % 2 == 0 then 0 else 1) n 0 false (List.replicate g 0) = .ok r) :
+    ∀ x ∈ r, ∀ y ∈ r, x ≤ y + 1 := distribute_even g hg n r h
+
+/-- exact width: words interleaved with gaps of 1 + extra[i] spaces have length
+Σ|word| + gaps + Σ extra — with Σ extra = w − len this is exactly w -/
+theorem C12_exact_width {α : Type} [DecidableEq α] (cx : Ctx α) (ws : List (List α)) (extra : List Nat)
+    (h1 : ws ≠ []) (h2 : extra.length = ws.length - 1) :
+    (interleave cx ws extra).length = (ws.map List.length).sum + (ws.length - 1) + extra.sum :=
+  interleave_length cx ws extra h1 h2
+
+/-- the same words, in order -/
+theorem C12_words {α : Type} [DecidableEq α] (cx : Ctx α) (ws : List (List α)) (extra : List Nat)
+    (h : ∀ w ∈ ws, cx.sp ∉ w) : (interleave cx ws extra).filter (fun a => a != cx.sp) = ws.flatten :=
+  interleave_words cx ws extra h
+
+/-- JustifyLine on arbitrary code-point text returns normally -/
+theorem C12_total (text : List Int) (w : Int) : ∃ r, justifyLine cxA text w = .ok r :=
+  justifyLine_total cxA_Sane text w
+
+/-! non-vacuity: odd and even gap counts, deficit larger than the number of gaps -/
+example : distribute 3 1 5 0 false [0, 0, 0] = .ok [1, 2, 2] := rfl
+example : distribute 4 0 6 0 false [0, 0, 0, 0] = .ok [2, 1, 1, 2] := rfl
+
+end RosedVerif.Props
